@@ -11,6 +11,7 @@ CONSTANTS
   Depth = 3
   SeqLevels <- QuickLevels
   SeqFlags <- QuickFlags
+  SeqRewire = FALSE
   SeqNames <- IOSeqNames
 INVARIANT ClosedSilent
 INVARIANT OpenShows
